@@ -662,9 +662,69 @@ def check_v1(case, rec):
     rec.label('v1:' + f)
 
 
+# ---- single-character edits: rejected cleanly or accepted, never another exception -------------------------
+
+ALPHABET = list(' +-/^()[]{}<>_,.:?0123456789ijkvxδ∇$\t')
+
+
+@st.composite
+def edit_cases(draw, tier):
+    base = draw(valid_cases(tier))
+    return dict(base=base, kind=draw(st.sampled_from(['delete', 'insert', 'replace', 'swap', 'duplicate'])), pos=draw(st.integers(0, 200)), ch=draw(st.sampled_from(ALPHABET)))
+
+
+def edit(case):
+    s = render(case['base']['tree'], case['base']['ws'])
+    if not s: return None
+    k = case['kind']; p = case['pos'] % (len(s) + (1 if k == 'insert' else 0))
+    if k == 'delete': return s[:p] + s[p + 1:]
+    if k == 'insert': return s[:p] + case['ch'] + s[p:]
+    if k == 'replace': return s[:p] + case['ch'] + s[p + 1:]
+    if k == 'duplicate': return s[:p] + s[p] + s[p:]
+    if p + 1 >= len(s): return None
+    return s[:p] + s[p + 1] + s[p] + s[p + 2:]
+
+
+def check_edit(case, rec):
+    """a string one edit away from a valid one is either rejected with the module's syntax error or parsed; any other exception
+    (an internal IndexError, KeyError, AssertionError ...) is neither. Whether an accepted edit is *valid* is not judged here."""
+    from nutils import expression_v1, expression_v2
+    s = edit(case)
+    if s is None:
+        raise Discard('edit-not-applicable')
+    vars = case['base']['vars']
+    free = ''.join(sorted(case['base']['free']))
+    with warnings.catch_warnings():
+        warnings.simplefilter('ignore')
+        ns = namespace(vars)
+        try:
+            arr = s @ ns
+            out2 = 'accepted'
+        except expression_v2.ExpressionSyntaxError:
+            out2 = 'rejected'
+        except Exception as e:
+            raise Violation('wrong-exception', f'v2 {s!r} ({case["kind"]} edit of a valid string) raised {type(e).__name__}: {str(e)[:200]}', where='edit-v2:' + type(e).__name__)
+        if any(n['t'] == 'call' and n['gen'] for n in _walk(case['base']['tree'])):
+            rec.label('edit:' + case['kind'], 'v2:' + out2); rec.nontrivial = True
+            rec.key = hashlib.sha1(s.encode()).hexdigest()[:16]
+            return       # generating functions follow another protocol in version 1: such strings are only run through version 2
+        ns1 = namespace_v1(vars)
+        try:
+            arr = getattr(ns1, 'eval_' + free)(s)
+            out1 = 'accepted'
+        except expression_v1.ExpressionSyntaxError:
+            out1 = 'rejected'
+        except Exception as e:
+            raise Violation('wrong-exception', f'v1 eval_{free}({s!r}) ({case["kind"]} edit of a valid string) raised {type(e).__name__}: {str(e)[:200]}', where='edit-v1:' + type(e).__name__)
+    rec.label('edit:' + case['kind'], 'v2:' + out2, 'v1:' + out1)
+    rec.nontrivial = True
+    rec.key = hashlib.sha1(s.encode()).hexdigest()[:16]
+
+
 SUBS = [Sub('valid', valid_cases, check_valid, {'quick': 1500, 'thorough': 20000}, weight=4),
         Sub('corrupt', corrupt_cases, check_corrupt, {'quick': 600, 'thorough': 6000}, weight=1),
-        Sub('v1', v1_cases, check_v1, {'quick': 100, 'thorough': 1000}, weight=1)]
+        Sub('v1', v1_cases, check_v1, {'quick': 100, 'thorough': 1000}, weight=1),
+        Sub('edits', edit_cases, check_edit, {'quick': 1500, 'thorough': 30000}, weight=1)]
 
 TRIGGERS = {}
 
